@@ -1905,6 +1905,14 @@ def async_check(prop, tier):
                     {"act": "Await", "a": "a1", "thread": True}, {"act": "Drop"}]
             hists.append(lad)
     run.extra["long_sequences"] = len(seenl)
+    # requests the operating system refuses (the poll function's page does not become writable): a panic, nothing changes
+    rf = tlc.check("MC_Async", "MC_Async_f", workers=1, timeout=3000, coverage=False)
+    if rf["violation"]:
+        run.design_violation(rf)
+    hf = [h for h in tlc.parse_replay_lines(rf["prints"]) if any(x["act"] == "FakeRefused" for x in h)]
+    rnd.shuffle(hf)
+    hists += hf[:400 if tier == "quick" else 5000]
+    run.extra["refused_request_sequences"] = min(len(hf), 400 if tier == "quick" else 5000)
     vlib.build_harness()
     scen = [{"id": i, "mode": "seq", "steps": h, "unmet_counted": (i % 4 == 0)} for i, h in enumerate(hists, 1)]
     scen.append({"id": len(scen) + 1, "mode": "shapes"})
